@@ -16,6 +16,9 @@ import (
 type Clause struct {
 	Label string
 	Props []string
+	// Only: written {C07!}: the clause is assumed only in obligations that carry one of its properties (a scoped
+	// hypothesis: it cannot disturb the proofs of the function's other obligations; dropping a hypothesis is sound)
+	Only  bool
 	Expr  string
 	File  string
 	Line  int
@@ -197,7 +200,7 @@ func expandMacros(s string) string {
 }
 
 var labelRe = regexp.MustCompile(`^@([A-Za-z0-9_.\-]+)\s+`)
-var propsRe = regexp.MustCompile(`^\{([A-Z0-9 ,]+)\}\s+`)
+var propsRe = regexp.MustCompile(`^\{([A-Z0-9 ,]+)(!?)\}\s+`)
 
 func parseClause(rest, file string, line int) Clause {
 	c := Clause{File: file, Line: line}
@@ -208,6 +211,7 @@ func parseClause(rest, file string, line int) Clause {
 	}
 	if m := propsRe.FindStringSubmatch(rest); m != nil {
 		c.Props = strings.Fields(strings.ReplaceAll(m[1], ",", " "))
+		c.Only = m[2] == "!"
 		rest = rest[len(m[0]):]
 	}
 	c.Expr = strings.TrimSpace(rest)
